@@ -1,25 +1,31 @@
 #!/bin/sh
 # tools/seed_eval.sh <PID>_<K> [tier] -- confirm a stored seeded change in a scratch worktree of /repo HEAD
 # (tests green with it, demo passes without / fails with), then run ./check <PID> against that patched worktree
-# (VERIF_REPO) and remove it.  Uses patch_rebased.diff when present.  /repo itself is never modified.
+# (VERIF_REPO) and remove it.  Uses patch_rebased.diff when present.  /repo itself is never modified; work files and
+# evidence of the run go to a scratch directory (VERIF_WORK / VERIF_EVIDENCE), so the committed evidence is untouched
+# and several seeds can be evaluated at the same time.
 ID=$1; TIER=${2:-quick}; PID=${ID%%_*}
 D=/verif/seeded/$ID
 P=$D/patch.diff; [ -f $D/patch_rebased.diff ] && P=$D/patch_rebased.diff
 WT=/tmp/wt_eval_$ID
+SW=/tmp/seedwork_$ID
+rm -rf $SW; mkdir -p $SW/work $SW/evidence
 cd /repo || exit 2
 git worktree add -q --detach $WT HEAD || exit 2
 cd $WT
-PYTHONPATH=$WT /venv/bin/python $D/demo.py >/tmp/seed_demo_clean_$ID.out 2>&1; RC_CLEAN=$?
+PYTHONPATH=$WT /venv/bin/python $D/demo.py >$SW/demo_clean.out 2>&1; RC_CLEAN=$?
 if git apply $P 2>/dev/null; then
-  /venv/bin/python -m pytest -q -p no:cacheprovider -x >/tmp/seed_tests_$ID.out 2>&1; RC_TESTS=$?
-  PYTHONPATH=$WT /venv/bin/python $D/demo.py >/tmp/seed_demo_patched_$ID.out 2>&1; RC_PATCHED=$?
-  echo "$ID confirm: demo clean rc=$RC_CLEAN, tests with patch rc=$RC_TESTS ($(tail -1 /tmp/seed_tests_$ID.out 2>/dev/null)), demo patched rc=$RC_PATCHED"
-  mkdir -p /verif/.work/seed_$ID
-  cd /verif && VERIF_REPO=$WT ./check $PID --tier $TIER > /tmp/seed_check_$ID.out 2>&1; RC=$?
+  /venv/bin/python -m pytest -q -p no:cacheprovider -x >$SW/tests.out 2>&1; RC_TESTS=$?
+  PYTHONPATH=$WT /venv/bin/python $D/demo.py >$SW/demo_patched.out 2>&1; RC_PATCHED=$?
+  echo "$ID confirm: demo clean rc=$RC_CLEAN, tests with patch rc=$RC_TESTS ($(tail -1 $SW/tests.out 2>/dev/null)), demo patched rc=$RC_PATCHED"
+  cd /verif && VERIF_REPO=$WT VERIF_WORK=$SW/work VERIF_EVIDENCE=$SW/evidence ./check $PID --tier $TIER > $SW/check.out 2>&1; RC=$?
   echo "$ID: check $PID ($TIER) on patched tree: rc=$RC"
-  grep -E "^VIOLATION|signature:|MACHINERY" /tmp/seed_check_$ID.out | head -6
-  echo "{\"confirm\": {\"demo_clean_rc\": $RC_CLEAN, \"tests_with_patch_rc\": $RC_TESTS, \"demo_patched_rc\": $RC_PATCHED}, \"check_rc\": $RC, \"tier\": \"$TIER\", \"patch\": \"$(basename $P)\"}" > $D/result.json
+  SIGS=$(grep -E "signature:" $SW/check.out | head -4 | sed 's/.*signature: //' | tr '\n' ';' | sed 's/"/\\"/g')
+  grep -E "^VIOLATION|signature:|MACHINERY" $SW/check.out | head -6
+  echo "{\"confirm\": {\"demo_clean_rc\": $RC_CLEAN, \"tests_with_patch_rc\": $RC_TESTS, \"demo_patched_rc\": $RC_PATCHED}, \"check_rc\": $RC, \"tier\": \"$TIER\", \"patch\": \"$(basename $P)\", \"signatures\": \"$SIGS\"}" > $D/result.json
 else
   echo "$ID: patch does not apply to HEAD (needs patch_rebased.diff)"
+  echo "{\"error\": \"patch does not apply to HEAD\"}" > $D/result.json
 fi
 cd /repo && git worktree remove --force $WT
+rm -rf $SW
